@@ -101,22 +101,43 @@ func (lm *levelManager) iterators(opt *utils.Options) []utils.Iterator {
 
 // Get searches levels from L0 to Ln and returns the newest visible entry for key.
 func (lm *levelManager) Get(key []byte) (*kv.Entry, error) {
-	var (
-		entry *kv.Entry
-		err   error
-	)
-	// L0 layer query
-	if entry, err = lm.levels[0].Get(key); entry != nil {
-		return entry, err
+	return lm.getNewerThan(key, nil)
+}
+
+// getNewerThan scans L0 and every level for the greatest version <= the one
+// requested by key that is strictly greater than best's (best may be nil: any
+// version). It returns the overall winner; best is released when it loses or
+// when an error is returned. A lower level can hold a newer version than an
+// upper one, so the scan stops early only on an exact version match.
+func (lm *levelManager) getNewerThan(key []byte, best *kv.Entry) (*kv.Entry, error) {
+	var maxVer uint64
+	if best != nil {
+		maxVer = best.Version
 	}
-	// L1-7 layer query
-	for level := 1; level < lm.opt.MaxLevelNum; level++ {
-		ld := lm.levels[level]
-		if entry, err = ld.Get(key); entry != nil {
-			return entry, err
+	want := kv.ParseTs(key)
+	for level := 0; level < lm.opt.MaxLevelNum; level++ {
+		if best != nil && maxVer == want {
+			break
+		}
+		entry, err := lm.levels[level].getNewerThan(key, &maxVer)
+		if err == nil && entry != nil {
+			if best != nil {
+				best.DecrRef()
+			}
+			best = entry
+			continue
+		}
+		if err != nil && err != utils.ErrKeyNotFound {
+			if best != nil {
+				best.DecrRef()
+			}
+			return nil, err
 		}
 	}
-	return entry, utils.ErrKeyNotFound
+	if best != nil {
+		return best, nil
+	}
+	return nil, utils.ErrKeyNotFound
 }
 
 func (lm *levelManager) loadManifest() (err error) {
@@ -643,21 +664,26 @@ func (lh *levelHandler) numTables() int {
 
 // Get finds key inside this level, considering ingest shards and level semantics.
 func (lh *levelHandler) Get(key []byte) (*kv.Entry, error) {
+	var maxVer uint64
+	return lh.getNewerThan(key, &maxVer)
+}
+
+// getNewerThan returns the level's entry with the greatest version <= the one
+// requested by key, provided it is strictly greater than *maxVer (the best
+// version found so far by the caller), and advances *maxVer to it.
+func (lh *levelHandler) getNewerThan(key []byte, maxVer *uint64) (*kv.Entry, error) {
 	lh.RLock()
 	defer lh.RUnlock()
 	if lh.levelNum == 0 {
-		return lh.searchL0SST(key)
+		return lh.searchL0SSTNewerThan(key, maxVer)
 	}
-	var (
-		best   *kv.Entry
-		maxVer uint64
-	)
-	if entry, err := lh.searchIngestSST(key, &maxVer); err == nil {
+	var best *kv.Entry
+	if entry, err := lh.searchIngestSST(key, maxVer); err == nil {
 		best = entry
 	} else if err != utils.ErrKeyNotFound {
 		return nil, err
 	}
-	if entry, err := lh.searchLNSST(key, &maxVer); err == nil {
+	if entry, err := lh.searchLNSST(key, maxVer); err == nil {
 		if best != nil {
 			best.DecrRef()
 		}
@@ -731,10 +757,12 @@ func (lh *levelHandler) sortTablesLocked() {
 }
 
 func (lh *levelHandler) searchL0SST(key []byte) (*kv.Entry, error) {
-	var (
-		version uint64
-		best    *kv.Entry
-	)
+	var version uint64
+	return lh.searchL0SSTNewerThan(key, &version)
+}
+
+func (lh *levelHandler) searchL0SSTNewerThan(key []byte, maxVersion *uint64) (*kv.Entry, error) {
+	var best *kv.Entry
 	// Newest table first: on equal versions (the non-transactional sentinel,
 	// the lock column) the most recently flushed copy must win.
 	for i := len(lh.tables) - 1; i >= 0; i-- {
@@ -746,10 +774,10 @@ func (lh *levelHandler) searchL0SST(key []byte) (*kv.Entry, error) {
 			utils.CompareUserKeys(key, table.MaxKey()) > 0 {
 			continue
 		}
-		if table.MaxVersionVal() <= version {
+		if table.MaxVersionVal() <= *maxVersion {
 			continue
 		}
-		if entry, err := table.Search(key, &version); err == nil {
+		if entry, err := table.Search(key, maxVersion); err == nil {
 			if best != nil {
 				best.DecrRef()
 			}
